@@ -406,6 +406,12 @@ func runC16(cs CaseSpec) *CaseResult {
 	if r := checkReads("end of run", true); r != nil {
 		return r
 	}
+	// roots written by a reset from a frame (fast-sync), then a later validator
+	// set recorded on top: the roots must stay what the frame said, in the cache,
+	// in the database and after a reopen
+	if r := checkRootsAfterReset(cs, res, ops, d, dir, cache, rng); r != nil {
+		return r
+	}
 	res.digest("c16", cs.Seed, cs.Index, cache, len(ops))
 	keys := []int{}
 	for k := range m.blocks {
@@ -540,4 +546,95 @@ func withRewrites(rng *rand.Rand, ops []storeOp, res *CaseResult) []storeOp {
 		}
 	}
 	return out
+}
+
+// checkRootsAfterReset: a second store is initialised with the genesis set,
+// reset from one of the frames of the history (the one with the most root
+// events), and then records a later validator set containing the same
+// participants, as a join or leave accepted after the fast-forward does.
+func checkRootsAfterReset(cs CaseSpec, res *CaseResult, ops []storeOp, d *Dag, dir string, cache int, rng *rand.Rand) *CaseResult {
+	var frame *hg.Frame
+	best := 0
+	for _, op := range ops {
+		if op.kind == "frame" && len(op.raw) > 0 {
+			fr := new(hg.Frame)
+			if fr.Unmarshal(op.raw) != nil {
+				continue
+			}
+			k := 0
+			for _, r := range fr.Roots {
+				k += len(r.Events)
+			}
+			if k > best {
+				best, frame = k, fr
+			}
+		}
+	}
+	if frame == nil || best == 0 {
+		res.count("store_reset_checks_skipped_no_frame_with_root_events", 1)
+		return nil
+	}
+	var f hg.Frame
+	if wireCopy(frame, &f) != nil {
+		return nil
+	}
+	fail := func(sig, msg string) *CaseResult {
+		res.violate("C16", sig, msg, map[string]interface{}{"cache_size": cache, "frame_round": f.Round, "n": d.N})
+		return res
+	}
+	path := filepath.Join(dir, "c16db-reset")
+	st, err := hg.NewBadgerStore(cache, path, false, nil)
+	if err != nil {
+		return nil
+	}
+	defer func() { st.Close() }()
+	genesis := peers.NewPeerSet(clonePeers(d.Peers))
+	if err := st.SetPeerSet(0, genesis); err != nil {
+		return nil
+	}
+	want := map[string]string{}
+	for pk, r := range f.Roots {
+		b, _ := r.Marshal()
+		want[pk] = string(b)
+	}
+	if err := st.Reset(&f); err != nil {
+		return fail("C16:reset-from-frame-fails", fmt.Sprintf("a store initialised with the genesis set cannot be reset from frame %d of the history: %v", f.Round, err))
+	}
+	if err := st.SetPeerSet(f.Round+6, peers.NewPeerSet(clonePeers(f.Peers))); err != nil {
+		return fail("C16:peerset-refused-after-reset", err.Error())
+	}
+	check := func(phase string, s *hg.BadgerStore) *CaseResult {
+		for pk, w := range want {
+			res.count("store_root_reads_after_reset", 2)
+			r, err := s.GetRoot(pk)
+			if err != nil {
+				return fail("C16:root-unreadable", fmt.Sprintf("%s: GetRoot(%s): %v", phase, pk[:10], err))
+			}
+			if b, _ := r.Marshal(); string(b) != w {
+				return fail("C16:stored-root-differs", fmt.Sprintf("%s: GetRoot(%s) is not the root the reset wrote (%d bytes instead of %d)", phase, pk[:10], len(b), len(w)))
+			}
+			dr, err := s.VerifDBGetRoot(pk)
+			if err != nil {
+				return fail("C16:root-not-durable", fmt.Sprintf("%s: no root in the database for %s: %v", phase, pk[:10], err))
+			}
+			if b, _ := dr.Marshal(); string(b) != w {
+				return fail("C16:durable-root-differs", fmt.Sprintf("%s: the database copy of the root of %s is not the root the reset wrote (%d bytes instead of %d)", phase, pk[:10], len(b), len(w)))
+			}
+		}
+		return nil
+	}
+	if r := check("after reset and a later validator set", st); r != nil {
+		return r
+	}
+	st.Close()
+	st2, err := hg.NewBadgerStore(cache, path, false, nil)
+	if err != nil {
+		return fail("C16:reopen-fails", err.Error())
+	}
+	st = st2
+	if r := check("after reset, a later validator set, close and reopen", st2); r != nil {
+		return r
+	}
+	res.count("store_reset_then_peerset_checks", 1)
+	return nil
 }
